@@ -31,7 +31,7 @@ import (
 )
 
 func init() {
-	register(&Prop{ID: "C29", Module: "V.C29.Check", Gen: c29Gen, Quick: 260, Thorough: 6000, Shard: 24})
+	register(&Prop{ID: "C29", Module: "V.C29.Check", Gen: c29Gen, Quick: 260, Thorough: 1500, Shard: 24})
 }
 
 type c29Doc struct {
